@@ -1,5 +1,5 @@
 import GoluaVerif.Audit
 import GoluaVerif.Props.C03
-import GoluaVerif.Props.C03_Counterexamples
+import GoluaVerif.Props.C03_Examples
 #audit_module GoluaVerif.Props.C03
-#audit_module GoluaVerif.Props.C03_Counterexamples
+#audit_module GoluaVerif.Props.C03_Examples
